@@ -7,7 +7,9 @@
 // on the same schedule and the step traces (thread, operation kind, address class,
 // value/ok, results, len counter after every step) are diffed.
 // Independent oracle: FIFO linearizability of the recorded history (package lin),
-// Len() sampled after every step, justification of false returns.
+// Len() sampled after every step, every Len() CALL of a thread program judged against the
+// poppable counts over the interval of the call (checkLenCalls; the Lean side of that rule is
+// LenCallOK / c11_len_call_interval / c11_len_two_counter), justification of false returns.
 package c11
 
 import (
@@ -88,6 +90,54 @@ func sampleLen(s string) (int, bool) {
 	return n, err == nil
 }
 
+// ptrTrack follows the published head and tail (chain indices) through the operations the
+// real code performed on the two pointer words, however it writes them: store, successful
+// CAS, swap.  ok turns false (for the rest of the trace) when a written value cannot be
+// named (nil, a node that is not linked yet): from then on the number of poppable values is
+// not known to the oracle and the rules that need it are not applied.
+type ptrTrack struct {
+	head, tail int
+	ok         bool
+}
+
+func (p *ptrTrack) apply(access string) {
+	f := strings.Fields(access)
+	if len(f) < 2 {
+		return
+	}
+	set := func(word, val string) {
+		v, err := strconv.Atoi(val)
+		if err != nil {
+			p.ok = false
+			return
+		}
+		if word == "head" {
+			p.head = v
+		} else {
+			p.tail = v
+		}
+	}
+	switch f[0] {
+	case "st", "swap":
+		for _, w := range []string{"head", "tail"} {
+			if strings.HasPrefix(f[1], w+"=") {
+				set(w, strings.TrimPrefix(f[1], w+"="))
+			}
+		}
+	case "cas":
+		if (f[1] == "head" || f[1] == "tail") && len(f) == 4 && f[3] == "ok" {
+			if ab := strings.Split(f[2], "->"); len(ab) == 2 {
+				set(f[1], ab[1])
+			}
+		}
+	}
+}
+
+func (p *ptrTrack) poppable() int { return p.tail - p.head }
+
+// unknownCount marks an instant at which the poppable count is not known.
+const unknownCount = -1 << 30
+
 // check is the property's own predicate on what the real code did.
 func check(c core.Case, out []string) *core.Failure {
 	ninit, progs, ok := parseHeader(c.Lines[0])
@@ -118,27 +168,21 @@ func check(c core.Case, out []string) *core.Failure {
 			return &core.Failure{Key: "len-negative", Desc: fmt.Sprintf("Len() == %d after step %d (thread %d: %s)", n, k, st.Tid, st.Access)}
 		}
 	}
-	headIdx, tailIdx := 0, ninit
+	pt := ptrTrack{head: 0, tail: ninit, ok: true}
+	// poppable[k+1] = number of values that can be popped right after step k
+	// (poppable[0]: before the first step); unknownCount when not known
+	poppable := make([]int, 1, len(steps)+1)
+	poppable[0] = ninit
 	for k, st := range steps {
-		if strings.HasPrefix(st.Access, "st tail=") {
-			if v, err := strconv.Atoi(strings.TrimPrefix(st.Access, "st tail=")); err == nil {
-				tailIdx = v
-			}
+		pt.apply(st.Access)
+		tailIdx, headIdx := pt.tail, pt.head
+		if !pt.ok {
+			tailIdx, headIdx = 0, 1<<30 // no lower bound for Len() from here on
 		}
-		if strings.HasPrefix(st.Access, "st head=") { // not in today's code: a head published by a store
-			if v, err := strconv.Atoi(strings.TrimPrefix(st.Access, "st head=")); err == nil {
-				headIdx = v
-			}
-		}
-		if strings.HasPrefix(st.Access, "cas head ") && strings.HasSuffix(st.Access, " ok") {
-			f := strings.Fields(st.Access)
-			if len(f) == 4 {
-				if ab := strings.Split(f[2], "->"); len(ab) == 2 {
-					if v, err := strconv.Atoi(ab[1]); err == nil {
-						headIdx = v
-					}
-				}
-			}
+		if pt.ok {
+			poppable = append(poppable, pt.poppable())
+		} else {
+			poppable = append(poppable, unknownCount)
 		}
 		n, ok := sampleLen(st.Sample)
 		if st.Sample == "sample-panic" {
@@ -162,8 +206,15 @@ func check(c core.Case, out []string) *core.Failure {
 			}
 		}
 	}
-	// 2. history: FIFO linearizability, exactly-once, justified false returns
+	// 1b. every Len() CALL of a thread program, judged against the interval of the call.
+	//     A Len() made of several atomic accesses (two counters loaded one after the
+	//     other, a walk along the chain, …) is preempted between them under the scheduler;
+	//     the sample above (a Len() run by the controller between two steps) never is.
 	calls := drive.Calls(progs, steps)
+	if f := checkLenCalls(calls, poppable, ninit); f != nil {
+		return f
+	}
+	// 2. history: FIFO linearizability, exactly-once, justified false returns
 	var ops []lin.Op
 	for _, cr := range calls {
 		var o lin.Op
@@ -234,6 +285,92 @@ func check(c core.Case, out []string) *core.Failure {
 	return nil
 }
 
+// checkLenCalls: the Len clause for calls that overlap other operations.  A call occupies
+// the instants from just before its first atomic access (it may have been invoked that
+// late: the thread has done nothing observable before) to just after the access on which
+// it returns.  The property allows a result r iff
+//
+//	r >= 0, and r >= the number of poppable values at SOME instant of the call
+//	(equivalently r >= the minimum of that number over the call's instants),
+//	and r == the number of stored values if no other call is in flight at any instant
+//	of the call (then that number does not change during the call, and it is
+//	initial + completed pushes − successful pops: read off the history, not the pointers).
+//
+// "Never less than the number of values that can currently be popped" cannot ask for more
+// of a call that overlaps pushes and pops: whichever instant "currently" refers to lies
+// inside the call.  It must not ask for less either: a result below the minimum is below
+// the poppable count at EVERY instant of the call (seed C11-K: `pushed` loaded before
+// `popped`, Push+Pop pairs completing in between are subtracted but not added).
+// poppable[k+1] is the count right after global step k.
+func checkLenCalls(calls []drive.CallRec, poppable []int, ninit int) *core.Failure {
+	for ci, cr := range calls {
+		if cr.Call != "l" || cr.Pending {
+			continue
+		}
+		f := strings.Fields(cr.Ret) // len <n>
+		if len(f) != 2 || f[0] != "len" {
+			if cr.Ret == "panic" {
+				continue // reported by the step loop
+			}
+			return &core.Failure{Key: "harness", Desc: "unparsable result " + cr.Ret}
+		}
+		r, err := strconv.Atoi(f[1])
+		if err != nil {
+			return &core.Failure{Key: "harness", Desc: "unparsable result " + cr.Ret}
+		}
+		if cr.Inv < 0 || cr.Resp+1 >= len(poppable) || cr.Inv > cr.Resp {
+			return &core.Failure{Key: "harness", Desc: "Len() call with an impossible interval"}
+		}
+		if r < 0 {
+			return &core.Failure{Key: "len-negative", Desc: fmt.Sprintf("a Len() call of thread %d returned %d (steps %d..%d)", cr.Tid, r, cr.Inv, cr.Resp)}
+		}
+		lo, hi, known := poppable[cr.Inv], poppable[cr.Inv], true
+		for k := cr.Inv; k <= cr.Resp+1; k++ {
+			if poppable[k] == unknownCount || poppable[k] < 0 {
+				known = false // head/tail written in a way the oracle cannot follow
+			}
+			if poppable[k] < lo {
+				lo = poppable[k]
+			}
+			if poppable[k] > hi {
+				hi = poppable[k]
+			}
+		}
+		if known && r < lo {
+			return &core.Failure{Key: "len-call-below-poppable", Desc: fmt.Sprintf("a Len() call of thread %d (steps %d..%d) returned %d although at least %d values could be popped at every instant of the call (between %d and %d)", cr.Tid, cr.Inv, cr.Resp, r, lo, lo, hi)}
+		}
+		// no other call in flight at any instant of this call: every earlier call has
+		// returned, so the number of stored values is a fact about the HISTORY alone
+		// (initial + completed pushes − successful pops), whatever the pointers look like
+		quiet, stored := true, ninit
+		for cj, o := range calls {
+			if cj == ci {
+				continue
+			}
+			if o.Inv > cr.Resp {
+				continue // invoked after this call returned
+			}
+			if o.Pending || o.Resp >= cr.Inv {
+				if o.Tid != cr.Tid {
+					quiet = false
+					break
+				}
+				continue
+			}
+			switch {
+			case strings.HasPrefix(o.Call, "u") && o.Ret == "push":
+				stored++
+			case strings.HasPrefix(o.Ret, "pop ") && strings.HasSuffix(o.Ret, " true"):
+				stored--
+			}
+		}
+		if quiet && r != stored {
+			return &core.Failure{Key: "len-call-quiescent", Desc: fmt.Sprintf("a Len() call of thread %d (steps %d..%d) returned %d with no other operation in flight during the call while %d values are stored (initial %d + completed pushes - successful pops)", cr.Tid, cr.Inv, cr.Resp, r, stored, ninit)}
+		}
+	}
+	return nil
+}
+
 func classify(c core.Case, out []string) []string {
 	steps, final, _ := drive.ParseTrace(c.Lines, out)
 	seen := map[string]bool{}
@@ -292,6 +429,65 @@ func classify(c core.Case, out []string) []string {
 	}
 	if final == "" {
 		seen["ends-with-pending-calls"] = true
+	}
+	// Len() calls and what the other threads completed while the caller was parked inside
+	// (or right in front of) the call: the window in which a Len() composed of several
+	// atomic loads is preempted
+	lastStep := make([]int, len(progs))
+	for i := range lastStep {
+		lastStep[i] = -1
+	}
+	callAt := map[int]drive.CallRec{}
+	for _, cr := range drive.Calls(progs, steps) {
+		if cr.Call == "l" {
+			callAt[cr.Inv] = cr
+		}
+	}
+	pt := ptrTrack{ok: true}
+	if n, _, ok := parseHeader(c.Lines[0]); ok {
+		pt.tail = n
+	}
+	pop := make([]int, 0, len(steps)) // poppable count right after each step
+	for _, st := range steps {
+		pt.apply(st.Access)
+		pop = append(pop, pt.poppable())
+	}
+	for k, st := range steps {
+		if st.Tid < 0 || st.Tid >= len(lastStep) {
+			continue
+		}
+		if cr, ok := callAt[k]; ok {
+			seen["call-Len"] = true
+			end := cr.Resp
+			if cr.Pending {
+				end = k
+			}
+			if end > cr.Inv {
+				seen["len-call-of-several-accesses"] = true
+			}
+			pushes, pops, minPop := 0, 0, pop[k]
+			for j := lastStep[st.Tid] + 1; j <= end && j < len(steps); j++ {
+				if pop[j] < minPop {
+					minPop = pop[j]
+				}
+				if steps[j].Tid == st.Tid {
+					continue
+				}
+				if strings.HasPrefix(steps[j].Access, "st tail=") {
+					pushes++
+				}
+				if strings.HasPrefix(steps[j].Access, "cas head ") && strings.HasSuffix(steps[j].Access, " ok") {
+					pops++
+				}
+			}
+			if pushes > 0 && pops > 0 {
+				seen["len-caller-parked-across-push+pop"] = true
+				if minPop > 0 {
+					seen["len-caller-parked-across-push+pop-on-nonempty-list"] = true
+				}
+			}
+		}
+		lastStep[st.Tid] = k
 	}
 	var ls []string
 	for k := range seen {
